@@ -222,6 +222,7 @@ static int json_patch_apply_move_copy(struct json_object **res,
 	struct json_object *jfrom;
 	const char *from_s;
 	size_t from_s_len;
+	int add = 1; // "copy" inserts into arrays, like "add"
 	int rc;
 
 	if (!json_object_object_get_ex(patch_elem, "from", &jfrom)) {
@@ -241,16 +242,16 @@ static int json_patch_apply_move_copy(struct json_object **res,
 	from_s = json_object_get_string(jfrom);
 
 	from_s_len = strlen(from_s);
-	if (strncmp(from_s, path, from_s_len) == 0) {
+	if (move && strncmp(from_s, path, from_s_len) == 0 &&
+	    (path[from_s_len] == '/' || (from_s_len == 0 && path[0] != '\0'))) {
 		/**
-		 * If lengths match, it's a noop, if they don't,
-		 * then we're trying to move a parent under a child
+		 * We're trying to move a parent under a child
 		 * which is not allowed as per RFC 6902 section 4.4
 		 *   The "from" location MUST NOT be a proper prefix of the "path"
 		 *   location; i.e., a location cannot be moved into one of its children.
+		 * A prefix in terms of reference tokens, that is: "/a" is not
+		 * a prefix of "/ab".  Copying into a child is fine.
 		 */
-		if (from_s_len == strlen(path))
-			return 0;
 		_set_err(EINVAL, "Invalid attempt to move parent under a child");
 		return -1;
 	}
@@ -261,6 +262,10 @@ static int json_patch_apply_move_copy(struct json_object **res,
 		_set_err_from_ptrget(errno, "from");
 		return rc;
 	}
+
+	/* Moving an existing value onto itself changes nothing */
+	if (move && strcmp(from_s, path) == 0)
+		return 0;
 
 	if (!move) {
 		/* The new location gets a copy of its own, independent of the source */
@@ -283,7 +288,8 @@ static int json_patch_apply_move_copy(struct json_object **res,
 		array_set_cb = json_object_array_move_cb;
 	}
 
-	rc = json_pointer_set_with_array_cb(res, path, from.obj, array_set_cb, &from);
+	rc = json_pointer_set_with_array_cb(res, path, from.obj, array_set_cb,
+	                                    move ? (void *)&from : (void *)&add);
 	if (rc)
 	{
 		_set_err(errno, "Failed to set value at path referenced by 'path' field");
